@@ -17,6 +17,7 @@ from vf.spaces import s1_space, realise_s1
 PROPERTY = "C12"
 LEVEL = "model_checking"
 UNCONFIRMED_OK = True
+NO_HISTORY_REPLAY = True  # every replay is a fresh process per hash seed; there is no in-process history
 RULE = ("the hash seed acts on this library only through the iteration order of sets of strings; the modules are imported from /repo's source "
         "through an import hook that makes the order of every dynamic set-iteration event a schedule decision. Per input (closed CFGs of S1, "
         "S2 programs through AST2SCFG/restructure/SCFG2AST, compiled functions through ByteFlow) the baseline schedule (all ascending) is compared "
